@@ -60,7 +60,7 @@ def counts_ok(sim, w) -> bool:
                 ok = False
             if not (cs.enqueued_vehicles == n_q):
                 ok = False
-    for bid in ("b0", "b1"):
+    for bid in ("b0", "b1", "b2"):
         base = sim.bases[bid]
         n = w.stall_ghost[bid]
         for vid in w.vids:
